@@ -866,7 +866,7 @@ class PathParser(object):
 
     def _relational_expr(self):
         expr = self._sub_expr()
-        while self.cur_token in ('>', '>=', '<', '>='):
+        while self.cur_token in ('>', '>=', '<', '<='):
             op = _operator_map[self.cur_token]
             self.next_token()
             expr = op(expr, self._sub_expr())
@@ -1536,7 +1536,7 @@ class LessThanOrEqualOperator(object):
 
 _operator_map = {'=': EqualsOperator, '!=': NotEqualsOperator,
                  '>': GreaterThanOperator, '>=': GreaterThanOrEqualOperator,
-                 '<': LessThanOperator, '>=': LessThanOrEqualOperator}
+                 '<': LessThanOperator, '<=': LessThanOrEqualOperator}
 
 
 _DOTSLASHSLASH = (DESCENDANT_OR_SELF, PrincipalTypeTest(None), ())
